@@ -340,6 +340,20 @@ def nf(p, max_steps=4000):
             else:
                 work[mm] = v
     CTX.steps += steps
+    if p.rows == ONE and p.cols == ONE and done:
+        # a 1 x 1 polynomial equals its transpose: each monomial is replaced by the smaller of itself and its transpose
+        canon = {}
+        for m, c in done.items():
+            mt = tuple(occ_T(o) for o in reversed(m))
+            key_m = tuple((o[0].id, o[1], o[2]) for o in m)
+            key_t = tuple((o[0].id, o[1], o[2]) for o in mt)
+            mm = m if key_m <= key_t else mt
+            v = _c(canon.get(mm, 0) + c)
+            if v == 0:
+                canon.pop(mm, None)
+            else:
+                canon[mm] = v
+        done = canon
     return Poly(done, p.rows, p.cols)
 
 
@@ -589,6 +603,8 @@ class NCArr:
 
     @property
     def shape(self):
+        if self.ndim == 0:
+            return ()
         return (self.p.rows, self.p.cols) if self.ndim == 2 else (self.p.rows,)
 
     @property
@@ -598,6 +614,9 @@ class NCArr:
     @property
     def T(self):
         return NCArr(self.p.T(), 2) if self.ndim == 2 else self
+
+    def __float__(self):
+        raise Undecided("float() of a symbolic scalar polynomial")
 
     def transpose(self):
         return self.T
@@ -619,7 +638,9 @@ class NCArr:
             return NCArr(self.p * o.p, 1)
         if self.ndim == 1 and o.ndim == 2:
             return NCArr(o.p.T() * self.p, 1)
-        raise Undecided("inner product of two symbolic vectors")
+        if self.ndim == 1 and o.ndim == 1:
+            return NCArr(self.p.T() * o.p, 0)  # inner product: a 1 x 1 polynomial (a scalar; equal to its own transpose)
+        raise Undecided("product with a symbolic scalar polynomial")
 
     def __rmatmul__(self, o):
         if isinstance(o, NCArr):
@@ -1187,6 +1208,12 @@ class NPShim:
         if isinstance(x, (bool, _np.bool_)):
             return bool(x)
         return _np.all(x, *a, **k)
+
+    @staticmethod
+    def zeros_like(x, *a, **k):
+        if isinstance(x, NCArr):
+            return NCArr(Poly.zero(x.p.rows, x.p.cols), x.ndim)
+        return _np.zeros_like(x, *a, **k)
 
     @staticmethod
     def ones(n, *a, **k):
